@@ -29,11 +29,45 @@ ASSUMPTIONS = [
     "cards: PTO 0, grid G6 given unsorted (legacy flavour: numpy array; modern flavour: list), kinematics lists with 3 points NOT ordered in Q2 and one repeated point, cross-section and structure-function observables",
     "legacy flavour: keys alphaqed, QED present, PTODIS / FONLLParts / RenScaleVar / FactScaleVar absent, TargetDIS spelled per axis; modern flavour: all keys explicit",
     "sequence length <= 2 for all cells, = 3 for a sub-lattice (quick) / all cells (thorough)",
+    "unusual card values (TMC with heavy target, PTO 1 with xiR/xiF != 1, PTODIS != PTO, non-default EW parameters + propagator correction + polarisation, kThr/Qm/masses changed, FONLLParts/DAMP, NCPositivityCharge + degree 1, scale variations off, numpy-scalar kinematics): every option x two schemes x both card flavours x all sequences of length <= 2",
 ]
 BUDGET = {"quick": 900, "thorough": 3600}
 
 
-def _cards(fns, nfff, tkey, flavour, proj):
+OPTS = {
+    # unusual card values: every branch of the input handling that they switch on must leave the caller's dicts alone as well
+    "tmc": ({"TMC": 1, "MP": 1.5}, {}),
+    "pto1": ({"PTO": 1, "XIR": 2.0, "XIF": 0.5}, {}),
+    "ptodis": ({"PTO": 1, "PTODIS": 0}, {}),
+    "ew": ({"MZ": 80.0, "SIN2TW": 0.3, "CKM": "0.9 0.3 0.1 0.3 0.9 0.2 0.1 0.2 0.95"}, {"PropagatorCorrection": 0.1, "PolarizationDIS": -0.5}),
+    "thr": ({"kcThr": 2.0, "kbThr": 0.8, "Qmc": 3.0, "Qmb": 4.0, "mc": 1.3}, {}),
+    "fonllparts": ({"FONLLParts": "massless", "DAMP": 1}, {}),
+    "positivity": ({}, {"NCPositivityCharge": "up", "interpolation_polynomial_degree": 1}),
+    "nosv": ({"RenScaleVar": False, "FactScaleVar": False, "PTO": 1}, {}),
+    "npfloat": ({}, {"__npkin__": True}),
+}
+
+
+def _cards(fns, nfff, tkey, flavour, proj, opt=None):
+    t, o = _cards0(fns, nfff, tkey, flavour, proj)
+    if opt:
+        dt, do = OPTS[opt]
+        if flavour == "modern" and "PTO" in dt:
+            t["order"] = (dt["PTO"] + 1, 0)
+            if "PTODIS" not in dt:
+                t["PTODIS"] = dt["PTO"]
+        t.update(copy.deepcopy(dt))
+        do = dict(do)
+        if do.pop("__npkin__", False):  # kinematics given as numpy scalars (cards built from arrays)
+            for name, kins in o["observables"].items():
+                for k in kins:
+                    for kk in list(k):
+                        k[kk] = np.float64(k[kk])
+        o.update(copy.deepcopy(do))
+    return t, o
+
+
+def _cards0(fns, nfff, tkey, flavour, proj):
     t = copy.deepcopy(cards.BASE_THEORY)
     t["FNS"], t["NfFF"], t["PTO"] = fns, nfff, 0
     o = copy.deepcopy(cards.BASE_OBS)
@@ -123,6 +157,13 @@ def _states_base(tier, seed):
                 if n == 3 and tier == "quick" and sum(1 for s in seq if s in ("result", "run")) > 1:
                     continue
                 out.append({"fns": fns, "nfff": nf, "target": tkey, "flavour": flavour, "projectile": proj, "seq": list(seq)})
+    # unusual card values (every option x card flavour x every sequence of length <= 2) on two schemes
+    for opt, (fns, nf), flavour in itertools.product(OPTS, [("ZM-VFNS", 3), ("FONLL-FFNS", 4)], ["legacy", "modern"]):
+        tkey = "dict" if opt in ("ew", "positivity") else "name"
+        proj = {"name": "neutrino", "dict": "positron", "proton": "electron"}[tkey]
+        for n in (1, 2):
+            for seq in itertools.product(OPS, repeat=n):
+                out.append({"fns": fns, "nfff": nf, "target": tkey, "flavour": flavour, "projectile": proj, "seq": list(seq), "opt": opt})
     return out
 
 
@@ -183,9 +224,10 @@ def execute(st):
     from yadism.input import compatibility
 
     yrun.reset_memos()
-    t, o = _cards(st["fns"], st["nfff"], st["target"], st["flavour"], st["projectile"])
+    t, o = _cards(st["fns"], st["nfff"], st["target"], st["flavour"], st["projectile"], st.get("opt"))
     snap_t, snap_o = _snap(t), _snap(o)
     t0n, o0n = _norm(t), _norm(o)
+    yrun.log_cards(t, o)  # read-only; after the snapshots
     viol = []
     digs = []
     ntr = 0
